@@ -9,7 +9,7 @@ namespace Zix.CopyFile
 open Zix.Errno
 
 inductive Call where
-  | openSrc | fstatSrc | openDst | fstatDst | ftruncate | cfr | alloc | read | write | fdatasync | close
+  | openSrc | fstatSrc | openDst | fstatDst | ftruncate | cfr | alloc | read | write | fdatasync | closeDst | closeSrc
 deriving Repr, DecidableEq
 
 inductive Fault where
@@ -54,7 +54,7 @@ def St.bump (s : St) (c : Call) : St :=
 def callName : Call → String
   | .openSrc => "open-src" | .fstatSrc => "fstat-src" | .openDst => "open-dst"
   | .fstatDst => "fstat-dst" | .ftruncate => "ftruncate" | .cfr => "cfr" | .alloc => "alloc" | .read => "read" | .write => "write"
-  | .fdatasync => "fdatasync" | .close => "close"
+  | .fdatasync => "fdatasync" | .closeDst => "close-dst" | .closeSrc => "close-src"
 
 /-- Issue one call: look up its fault, count it, log it. -/
 def issue (fault : Call → Nat → Option Fault) (s : St) (c : Call) : St × Option Fault :=
@@ -75,19 +75,20 @@ def EIO : Int := 5
 def stBadArg : Int := 5
 def stError : Int := 1
 
-/-- `zix_system_close_fds(fd1, fd2)`, transcribed: `have1`/`have2` say whether the fds are open. -/
+/-- `zix_system_close_fds(fd1, fd2)` as called by `finish_copy(dst_fd, src_fd, …)`: the destination is
+closed first, then the source; `have1`/`have2` say whether the fds are open. -/
 def closeFds (fault : Call → Nat → Option Fault) (s : St) (have1 have2 : Bool) : St × Int :=
   let st0 := errnoStatus s.errno
   let (s, r1fail) :=
     if have1 then
-      match issue fault s .close with
+      match issue fault s .closeDst with
       | (s, some (.err e)) => ({ s with errno := e, closed := s.closed + 1 }, true)
       | (s, _) => ({ s with closed := s.closed + 1 }, false)
     else (s, false)
   let st1 := if r1fail then 0 else errnoStatus s.errno
   let (s, r2fail) :=
     if have2 then
-      match issue fault s .close with
+      match issue fault s .closeSrc with
       | (s, some (.err e)) => ({ s with errno := e, closed := s.closed + 1 }, true)
       | (s, _) => ({ s with closed := s.closed + 1 }, false)
     else (s, false)
